@@ -614,9 +614,12 @@ Print Assumptions C15_reenable_after_restart_keeps_file.
 
 (** That clause as a statement about the start-up procedure: it holds for the
     one of the code and is false for the variant that loads the disabled lists
-    as well (their checksum is then that of the file, the download on
-    re-enabling counts as "no change", which set_url reads as "no rules", and
-    the stored file is removed). *)
+    as well: their checksum is then that of the file, and a download on
+    re-enabling whose text has that checksum counts as "no change".  Since fix
+    7322afe that keeps the stored file; the witness is a source that has gone
+    from the rules "ab", "c" to "a", "bc" (same checksum: the CRC runs over the
+    rule lines concatenated): the variant keeps the old rules in force, the
+    code stores the new ones. *)
 Theorem C15_reenable_keeps_file : forall crc, reenable_keeps_file_statement crc (restart crc).
 Proof. exact reenable_keeps_file. Qed.
 Print Assumptions C15_reenable_keeps_file.
@@ -648,11 +651,17 @@ Example C15_load_disabled_witness :
   map f_sum (r_block LoadDisabled.st_up) <> [0] /\
   r_files LoadDisabled.st_up = r_files SetExamples.st_off /\
   fst (set_props crc32_update false 1 [120] 1 true (OBody RExamples.good false) LoadDisabled.st_up) = (true, false) /\
-  fget 1 (r_files LoadDisabled.st_on') = None /\
+  fget 1 (r_files LoadDisabled.st_on') = Some RExamples.good /\
   map f_enabled (r_block LoadDisabled.st_on') = [true] /\
   map f_count (r_block LoadDisabled.st_on') = [1] /\
-  lookup 1 (e_block (r_engine LoadDisabled.st_on')) = None /\
-  fget 1 (r_files LoadDisabled.st_later) = None.
+  lookup 1 (e_block (r_engine LoadDisabled.st_on')) = Some RExamples.good /\
+  fget 1 (r_files LoadDisabled.st_later) = Some RExamples.good /\
+  p_sum (fst (parse crc32_update LoadDisabled.ab_c false)) = p_sum (fst (parse crc32_update LoadDisabled.a_bc false)) /\
+  fget 1 (r_files LoadDisabled.c_off) = Some LoadDisabled.ab_c /\
+  fget 1 (r_files LoadDisabled.c_on') = Some LoadDisabled.ab_c /\
+  lookup 1 (e_block (r_engine LoadDisabled.c_on')) = Some LoadDisabled.ab_c /\
+  fget 1 (r_files LoadDisabled.c_on_ok) = Some LoadDisabled.a_bc /\
+  lookup 1 (e_block (r_engine LoadDisabled.c_on_ok)) = Some LoadDisabled.a_bc.
 Proof. exact load_disabled_example. Qed.
 
 (** ** The whole body (round 7)
@@ -711,3 +720,80 @@ Example C15_copy_back_satisfiable :
   map f_sum (snd (copy_back_all [Moved.u1] [Moved.l2])) = [9] /\
   map f_sum (copy_back_into_snapshot [Moved.u1] [Moved.l1] [Moved.l1; Moved.l2]) = [7; 9].
 Proof. exact copy_back_example. Qed.
+
+(** ** A list disabled while a refresh is downloading it, then enabled again
+    (found in round 8; /repo fix 7322afe)
+
+    [refresh_over] is a pass over one array whose working copies are taken
+    before, and whose results are copied back after, a set_url call.  For every
+    state, array, position of the list, content and names: the working copy of
+    list [i] is taken while it is enabled, set_url disables it during the
+    download, the pass finishes (it stores the download and copies rule count
+    and checksum into the disabled entry), then set_url enables the list, its
+    source delivering content with the same checksum.  No error, a restart, and
+    the stored file, the rule count, the checksum and the rules in force are
+    those of the download of the pass, i.e. of the last successful download. *)
+Theorem C15_reenable_after_overlapped_disable :
+  forall crc, reenable_after_overlap_statement crc (set_props crc).
+Proof. exact reenable_after_overlap. Qed.
+Print Assumptions C15_reenable_after_overlapped_disable.
+
+(** What the overlapped pass itself leaves. *)
+Theorem C15_overlapped_disable_leaves :
+  forall crc allow u i name o force due oc d re pst st pre f post,
+  NoDup (map f_id (arr allow st)) ->
+  arr allow st = pre ++ f :: post -> Forall (other_url u) pre ->
+  Forall (other_id i) pre -> Forall (other_id i) post ->
+  f_url f = u -> f_id f = i -> f_enabled f = true -> (force || due i)%bool = true ->
+  oc i = OBody d re -> parse crc d re = (pst, None) -> p_sum pst <> f_sum f ->
+  let st2 := refresh_over crc allow force due oc (fun s => snd (set_props crc allow u name u false o s)) st in
+  fget i (r_files st2) = Some (output pst) /\
+  exists pre' post' nm,
+    arr allow st2 = pre' ++ {| f_id := i; f_url := u; f_enabled := false; f_name := nm;
+                               f_count := p_count pst; f_sum := p_sum pst |} :: post' /\
+    Forall (other_url u) pre' /\ Forall (other_id i) pre' /\ Forall (other_id i) post'.
+Proof. exact overlap_leaves. Qed.
+Print Assumptions C15_overlapped_disable_leaves.
+
+(** The two halves of a pass on one and the same array are the pass. *)
+Theorem C15_pass_is_its_two_halves : forall crc ls force due oc fs,
+  refresh_array crc ls force due oc fs = finish_array crc (to_update ls force due) ls oc fs.
+Proof. exact refresh_array_split. Qed.
+Print Assumptions C15_pass_is_its_two_halves.
+
+(** The removal of the stored file whatever the checksum compared with (the
+    code before 7322afe; [set_props_g crc true] is [set_props crc]) is refuted:
+    block list 1 of [st1], a forced pass downloading [good2], disabled
+    meanwhile, enabled again with [good2]: no file, nothing in force. *)
+Theorem C15_unguarded_removal_refuted :
+  ~ reenable_after_overlap_statement crc32_update (set_props_g crc32_update false).
+Proof. exact reenable_after_overlap_unguarded_refuted. Qed.
+Print Assumptions C15_unguarded_removal_refuted.
+
+Theorem C15_guarded_variant_is_the_model : forall crc allow url name nurl en o st,
+  set_props_g crc true allow url name nurl en o st = set_props crc allow url name nurl en o st.
+Proof. exact set_props_g_true. Qed.
+Print Assumptions C15_guarded_variant_is_the_model.
+
+(** Non-vacuity and the witness. *)
+Example C15_overlapped_disable_satisfiable :
+  fget 1 (r_files Gated.st_over) = Some RExamples.good2 /\
+  map f_enabled (r_block Gated.st_over) = [false] /\
+  map f_count (r_block Gated.st_over) = [1] /\
+  map f_sum (r_block Gated.st_over) <> [0] /\
+  over_report crc32_update false true RExamples.all Gated.oc2 Gated.disable RExamples.st1 = (1, false) /\
+  verdict (r_engine Gated.st_over) [112;50] = 0 /\
+  refresh_over crc32_update false true RExamples.all Gated.oc2 (fun s => s) RExamples.st1
+  = refresh crc32_update true false true RExamples.all Gated.oc2 RExamples.st1 /\
+  fget 1 (r_files Gated.st_on) = Some RExamples.good2 /\
+  map f_enabled (r_block Gated.st_on) = [true] /\
+  map f_count (r_block Gated.st_on) = [1] /\
+  lookup 1 (e_block (r_engine Gated.st_on)) = Some RExamples.good2 /\
+  verdict (r_engine Gated.st_on) [112;50] = 1 /\
+  fget 1 (r_files Gated.st_on_old) = None /\
+  map f_enabled (r_block Gated.st_on_old) = [true] /\
+  map f_count (r_block Gated.st_on_old) = [1] /\
+  lookup 1 (e_block (r_engine Gated.st_on_old)) = None /\
+  verdict (r_engine Gated.st_on_old) [112;50] = 0 /\
+  fget 1 (r_files Gated.st_later_old) = None.
+Proof. exact gated_example. Qed.
